@@ -541,6 +541,24 @@ def explore_copy(res, name, via, depth, run=True):
                           f'{name} via {via}: mutating the {"copy" if other == 0 else "original"} with {ev[1:]} changed the {who}',
                           b[other], a[other])
             return False
+        # a copy taken NOW (of an object that has a history of assignments / in-place edits) is a copy of its current state
+        tgt = st[ev[0]]
+        res.transitions += 1
+        try:
+            c2 = tgt.copy()
+            same = bool(c2 == tgt) and bool(tgt == c2) and all(FP.fp(getattr(c2, f)) == FP.fp(getattr(tgt, f)) for f in tgt._params) \
+                and dict(c2.meta) == dict(tgt.meta) and dict(c2.visual) == dict(tgt.visual)
+        except Exception as exc:      # noqa: BLE001
+            if 'annulus' in name and 'must be greater than' in str(exc):
+                # the harness' own edits made outer <= inner (accepted on assignment: the recorded C17 finding); the
+                # constructor that copy() runs rejects that state -- not a matter of C16
+                return True
+            res.violation(ID, 'copy_raises', case, f'{name} via {via}: copy() after {[list(h) for h in hist] + [ev]} raised {type(exc).__name__}: {exc}')
+            return False
+        if not same:
+            res.violation(ID, 'copy_differs', case, f'{name} via {via}: after {[list(h) for h in hist] + [ev]} a fresh copy() of the edited '
+                                                    f'{"copy" if ev[0] == "c" else "original"} does not equal it: {c2!r} vs {tgt!r}')
+            return False
         if a != b:
             res.nontriv(('mutate', name, via, json.dumps(ev), kb))
         return True
